@@ -1082,6 +1082,9 @@ pub fn c10(rec: &RunRecord) -> Vec<Violation> {
             v.push(Violation::new("C10", "c10.length-without-answer", format!("round {k}: path length {} although nothing has answered", round.largest_ttl)));
         }
         // the state was cleared right after this round: the table starts afresh
+        if rec.sc.clear_after_round == Some(k as u32) && rec.world.counters.0.get("fail.query_after_clear_panicked").copied().unwrap_or(0) > 0 {
+            v.push(Violation::new("C10", "c10.query-after-clear", format!("round {k}: the state was cleared after this round and querying the fresh table (hops, target hop, round count, flows) panicked")));
+        }
         if rec.sc.clear_after_round == Some(k as u32) {
             lowest = None;
             highest = 0;
